@@ -423,7 +423,7 @@ func resolveUnionBatch(ctx context.Context, sources []interface{}, typ *Union, s
 		// merged selection, honoring the fragments' directives. An object
 		// whose type has no fragment still resolves to an (empty) object.
 		applicable := &SelectionSet{}
-		if err := collectUnionSelections(typ, srcType, selectionSet, applicable); err != nil {
+		if err := collectUnionSelections(typ, srcType, selectionSet, applicable, make(map[*SelectionSet]struct{})); err != nil {
 			return nil, err
 		}
 		units, err := resolveObjectBatch(ctx, sources, gqlType, applicable, destinationsByType[srcType])
@@ -438,7 +438,15 @@ func resolveUnionBatch(ctx context.Context, sources []interface{}, typ *Union, s
 // collectUnionSelections gathers what a union's selection set selects for the
 // member srcType: the union-level selections, the fragments on srcType, and,
 // recursively, the contents of included fragments on the union itself.
-func collectUnionSelections(typ *Union, srcType string, selectionSet *SelectionSet, into *SelectionSet) error {
+//
+// A fragment on the union that is reached several times contributes the same
+// selections each time; collecting it once keeps this linear in the query.
+func collectUnionSelections(typ *Union, srcType string, selectionSet *SelectionSet, into *SelectionSet, seen map[*SelectionSet]struct{}) error {
+	if _, ok := seen[selectionSet]; ok {
+		return nil
+	}
+	seen[selectionSet] = struct{}{}
+
 	into.Selections = append(into.Selections, selectionSet.Selections...)
 	for _, fragment := range selectionSet.Fragments {
 		switch fragment.On {
@@ -450,7 +458,7 @@ func collectUnionSelections(typ *Union, srcType string, selectionSet *SelectionS
 				return err
 			}
 			if ok {
-				if err := collectUnionSelections(typ, srcType, fragment.SelectionSet, into); err != nil {
+				if err := collectUnionSelections(typ, srcType, fragment.SelectionSet, into, seen); err != nil {
 					return err
 				}
 			}
